@@ -148,8 +148,28 @@ def run_state(case):
         got = [int(x) for x in md[k]]
         if got != want:
             raise Violation("C19 market-data dictionary entry is bound to the wrong series", "%s: got %r, recomputed per step %r" % (k, got, want))
+    # data frames built from this object's own records: the column named after a field must hold it.
+    # Independent expectations: remaining volume = starting volume - logged fills of that order
+    # (orders are never modified in these histories), filled <=> nothing remains, side strings.
+    orders = [tuple(o) for o in env.get_orders()]
+    trades = [tuple(t) for t in env.get_trades()]
+    odf = dp.orders_to_dataframe(orders)
+    tdf = dp.trades_to_dataframe(trades)
+    fills = {}
+    for vol, a, p_ in zip(tdf["vol"].tolist(), tdf["active_id"].tolist(), tdf["passive_id"].tolist()):
+        fills[a] = fills.get(a, 0) + vol
+        fills[p_] = fills.get(p_, 0) + vol
+    for oid, vol, start_vol, status, side in zip(odf["order_id"].tolist(), odf["vol"].tolist(), odf["start_vol"].tolist(), odf["status"].tolist(), odf["side"].tolist()):
+        if vol != start_vol - fills.get(oid, 0):
+            raise Violation("C19 order data-frame volume columns do not hold remaining / starting volume", "order %r: vol column %r, start_vol column %r, logged fills %r" % (oid, vol, start_vol, fills.get(oid, 0)))
+        if (status == "filled") != (vol == 0 and start_vol > 0):
+            raise Violation("C19 order data-frame status / volume columns are inconsistent", "order %r: status %r, vol %r, start_vol %r" % (oid, status, vol, start_vol))
+        if side not in ("bid", "ask"):
+            raise Violation("C19 order data-frame side column", "order %r: %r" % (oid, side))
+    if fills:
+        feat["frames_with_fills"] = 1
     nontrivial = feat["asym"] >= 1
-    return nontrivial, {"array_states": 1, "arrays_checked": feat["arrays"], "steps": feat["steps"], "asymmetric_audits": feat["asym"], "asymmetric_audits_with_distinct_nonzero_traded_volume": feat.get("asym_with_trade_vol", 0), "dictionaries_checked": feat["dicts"], "numpy_api_cases": int(numpy_api)}
+    return nontrivial, {"array_states": 1, "end_to_end_frames_with_fills": feat.get("frames_with_fills", 0), "arrays_checked": feat["arrays"], "steps": feat["steps"], "asymmetric_audits": feat["asym"], "asymmetric_audits_with_distinct_nonzero_traded_volume": feat.get("asym_with_trade_vol", 0), "dictionaries_checked": feat["dicts"], "numpy_api_cases": int(numpy_api)}
 
 
 def state_case_st():
